@@ -26,6 +26,7 @@ type vctx struct {
 	tier string
 	ops  *bufio.Writer // operations, fed to the Lean oracle
 	out  *bufio.Writer // what the implementation did
+	meta *bufio.Writer // per-operation annotations for the judges (category, group)
 	args map[string]string
 }
 
@@ -42,6 +43,7 @@ func envInt(name string, def int) int {
 
 func (c *vctx) op(format string, a ...interface{})  { fmt.Fprintf(c.ops, format+"\n", a...) }
 func (c *vctx) res(format string, a ...interface{}) { fmt.Fprintf(c.out, format+"\n", a...) }
+func (c *vctx) note(format string, a ...interface{}) { fmt.Fprintf(c.meta, format+"\n", a...) }
 
 func TestVerif(t *testing.T) {
 	mode := os.Getenv("VERIF_MODE")
@@ -82,6 +84,8 @@ func TestVerif(t *testing.T) {
 	}
 	c.ops = open("VERIF_OPS")
 	c.out = open("VERIF_OUT")
+	c.meta = open("VERIF_META")
+	defer c.meta.Flush()
 	defer c.ops.Flush()
 	defer c.out.Flush()
 	f(c)
